@@ -428,3 +428,99 @@ def native_C16(tier, seed):
                             fails.append({"id": f"C16-raise-{cls.__name__}-{nsname}-{dtn}-{r}", "obligation": "C16", "what": f"{type(e).__name__}: {str(e)[:200]}", "input": inp})
     return {"what": "select (slice, mask, index array) / partition+concatenate / pickle / to_dict-from_dict on real sample sets of every class x namespace x dtype x optional-field subset, against a plain-array reference model",
             "bound": f"{cases} sample sets", "cases": cases, "failures": fails}
+
+
+# ------------------------------------------------------------------------------------------ C19
+def native_C19(tier, seed):
+    import copy
+    import itertools
+    from aspire import Aspire
+    fails, cases = [], 0
+
+    class FakePool:
+        def __init__(self):
+            self.closed = False
+            self.joined = False
+
+        def map(self, f, xs):
+            return list(map(f, xs))
+
+        def close(self):
+            self.closed = True
+
+        def join(self):
+            self.joined = True
+
+    def ll(s, map_fn=None):
+        return 0.0
+
+    def lp(s, map_fn=None):
+        return 0.0
+
+    class Boom(Exception):
+        pass
+
+    depth = 3
+    kinds = ["pool", "ckpt_a", "ckpt_b", "ckpt_a2"]
+    for nest in itertools.product(kinds, repeat=depth) if tier == "thorough" else itertools.product(kinds, repeat=2):
+        for exc_at in [None] + list(range(len(nest))):
+            for close_pool in (True, False):
+                a = Aspire(log_likelihood=ll, log_prior=lp, dims=1)
+                a._checkpoint_defaults = {"path": "/tmp/a.h5", "every": 1, "save_config": False, "save_flow": False, "saved_config": False, "saved_flow": False} if "ckpt_a2" in nest[:1] else None
+                if a._checkpoint_defaults is None:
+                    del a._checkpoint_defaults
+                entry = {"ll": a.log_likelihood, "lp": a.log_prior, "had": hasattr(a, "_checkpoint_defaults"), "obj": getattr(a, "_checkpoint_defaults", None),
+                         "val": copy.deepcopy(getattr(a, "_checkpoint_defaults", None))}
+                pools = []
+                cases += 1
+
+                def enter(level):
+                    if level == len(nest):
+                        return
+                    k = nest[level]
+                    snap = {"ll": a.log_likelihood, "lp": a.log_prior, "had": hasattr(a, "_checkpoint_defaults"), "obj": getattr(a, "_checkpoint_defaults", None),
+                            "val": copy.deepcopy(getattr(a, "_checkpoint_defaults", None))}
+                    if k == "pool":
+                        pool = FakePool()
+                        pools.append((pool, close_pool))
+                        cm = a.enable_pool(pool, close_pool=close_pool, parallelize_prior=bool(level % 2))
+                    else:
+                        cm = a.auto_checkpoint("/tmp/a.h5" if k != "ckpt_b" else "/tmp/b.h5", every=2 + level, save_config=bool(level % 2), save_flow=not bool(level % 2))
+                    try:
+                        with cm:
+                            if k != "pool":
+                                a._checkpoint_defaults["saved_config"] = True
+                            if exc_at == level:
+                                raise Boom()
+                            enter(level + 1)
+                    finally:
+                        bad = []
+                        if a.log_likelihood is not snap["ll"] or a.log_prior is not snap["lp"]:
+                            bad.append("likelihood/prior not restored")
+                        if hasattr(a, "_checkpoint_defaults") != snap["had"]:
+                            bad.append("checkpoint defaults attribute presence changed")
+                        elif snap["had"] and (a._checkpoint_defaults is not snap["obj"] or a._checkpoint_defaults != snap["val"]):
+                            bad.append(f"checkpoint defaults not restored by value: {a._checkpoint_defaults} vs {snap['val']}")
+                        for b in bad:
+                            fails.append({"id": f"C19-{'-'.join(nest)}-exc{exc_at}-close{close_pool}-L{level}", "obligation": "restored", "what": f"leaving level {level} ({k}): {b}",
+                                          "input": {"nesting": list(nest), "exception_at_level": exc_at, "close_pool": close_pool}})
+                try:
+                    enter(0)
+                except Boom:
+                    pass
+                for pool, cp in pools:
+                    entered = True
+                    if pool.closed != cp or pool.joined != cp:
+                        fails.append({"id": f"C19-pool-{'-'.join(nest)}-exc{exc_at}-close{close_pool}", "obligation": "pool closed", "what": f"pool.closed={pool.closed}, expected {cp}",
+                                      "input": {"nesting": list(nest), "exception_at_level": exc_at, "close_pool": close_pool}})
+                # pool=None is accepted
+        # end for
+    a = Aspire(log_likelihood=ll, log_prior=lp, dims=1)
+    try:
+        with a.enable_pool(None):
+            pass
+        cases += 1
+    except Exception as e:  # noqa: BLE001
+        fails.append({"id": "C19-pool-none", "obligation": "no pool", "what": f"enable_pool(None) raised {type(e).__name__}: {e}", "input": {"pool": None}})
+    return {"what": "real Aspire.enable_pool / auto_checkpoint: every nesting of {pool, checkpoint file a, file b, file a over pre-existing defaults} with an exception at each level and both close_pool settings; restoration compared by identity and by value",
+            "bound": f"nesting depth {depth if tier == 'thorough' else 2}", "cases": cases, "failures": fails}
